@@ -32,8 +32,9 @@ theorem UsersPartR.patchObs {L pend unst w s cobs} (h : UsersPartR L pend unst w
 
 theorem touch_of_obs {J : Nat → Prop} (w w' : World) (hst : w'.status = w.status) (hh : w'.held = w.held)
     (hs : w'.slots = w.slots) (hv : w'.obsvs = w.obsvs) (hu : w'.users = w.users) (hc : w'.cells = w.cells)
-    (hl : w'.obs.length = w.obs.length) (ho : ∀ j, ¬ J j → w'.obs[j]? = w.obs[j]?) : Touch J NoCell w w' :=
-  ⟨hst, hh, hs, hv, hu, hl, ho, by rw [hc], fun _ _ => by rw [hc]⟩
+    (hl : w'.obs.length = w.obs.length) (ho : ∀ j, ¬ J j → w'.obs[j]? = w.obs[j]?)
+    (hp : probesOf w' = probesOf w) : Touch J NoCell w w' :=
+  ⟨hst, hh, hs, hv, hu, hl, ho, by rw [hc], fun _ _ => by rw [hc], hp⟩
 
 /-- one entry of the snapshot: the forwarder's callback, which calls the subscriber's (replay_subject.rs:87-93) -/
 theorem deliverL1_spec {L pend unst w s cobs} (g : Glob (L.roots ++ L.fwds) cobs w)
@@ -80,6 +81,7 @@ theorem deliverL1_spec {L pend unst w s cobs} (g : Glob (L.roots ++ L.fwds) cobs
           rw [this, U.log]; simp [recvK, hal]
         · intro _; simp [recvK, hia, hal]
       · exact touch_of_obs w w1 m1.1 m1.2.1 m1.2.2.1 m1.2.2.2 u1 c1 l1 (fun j hj => o1 j (fun e => hj (by rw [e]; exact hJf)))
+          (by simp only [probesOf, t1])
     | true =>
       obtain ⟨rd, hua, _⟩ := U.user
       refine wp_ev_user (s := o) r1 (by simp [rootOfL, hal, cbN]) (by simp [rootOfL, hal, cbE])
@@ -110,7 +112,7 @@ theorem deliverL1_spec {L pend unst w s cobs} (g : Glob (L.roots ++ L.fwds) cobs
           cases ht : ev.isTerminal with
           | true => simp [recvK, hia, ht]
           | false => have := U.dead hh; simp [hal] at this
-      · refine touch_of_obs w _ ?_ ?_ ?_ ?_ ?_ ?_ ?_ ?_
+      · refine touch_of_obs w _ ?_ ?_ ?_ ?_ ?_ ?_ ?_ ?_ (by rw [probesOf_deliverTo]; simp only [probesOf, t1])
         · rw [← m1.1]; unfold World.deliverTo; split <;> rfl
         · rw [← m1.2.1]; unfold World.deliverTo; split <;> rfl
         · rw [← m1.2.2.1]; unfold World.deliverTo; split <;> rfl
@@ -170,7 +172,7 @@ theorem UsersPartR.setFixed {L pend unst w s} (h : UsersPartR L pend unst w s) (
 theorem touch_setCell {J K : Nat → Prop} (w : World) (i : Nat) (d : Data) (hK : K i) :
     Touch J K w { w with cells := w.cells.set i d } :=
   ⟨rfl, rfl, rfl, rfl, rfl, rfl, fun _ _ => rfl, by simp,
-   fun j hj => set_get_other _ (fun e => hj (by rw [← e]; exact hK))⟩
+   fun j hj => set_get_other _ (fun e => hj (by rw [← e]; exact hK)), rfl⟩
 
 /-- the source observer's callback on a replay connectable: `ReplaySubject::next / error / complete`
     (replay_subject.rs:28-39) = `SubjM.emit .replay` -/
